@@ -461,13 +461,19 @@ func (t *Tr) callResults(instr ssa.Instruction, rtypes *types.Tuple, st *State) 
 func (t *Tr) havocForCall(cc *ssa.CallCommon, ct *Contract, env *Env, st *State) {
 	c := t.c
 	oldAlloc := c.get(st, compAlloc)
+	computed := ct == nil || !ct.HasMod
 	if ct != nil && ct.HasMod {
 		for _, m := range ct.Modifies {
+			if m == "computed" {
+				computed = true
+				continue
+			}
 			if err := t.havocTarget(m, env, st); err != nil {
 				t.unsup("modifies %q of %s: %v", m, ct.Key, err)
 			}
 		}
-	} else {
+	}
+	if computed {
 		mods := t.ms.callMods(t.fn, cc)
 		seen := map[string]bool{}
 		sort.Strings(mods)
@@ -1012,6 +1018,9 @@ func (t *Tr) frameObligations() {
 	}
 	var allowed []tgt
 	for _, m := range ct.Modifies {
+		if m == "computed" {
+			return // the computed frame is allowed as a whole: nothing to check
+		}
 		e, err := parseSpecExpr(m)
 		if err != nil {
 			continue
